@@ -54,7 +54,10 @@ func (st *State) iterateCallbacks(f *Frame, ins ssa.Instruction, c *Contract, na
 			t := st.evalBool(inv.Expr, env, inv)
 			st.oblige("inv-init", fmt.Sprintf("inv-init:call#%d:%s", k, clauseLabel(inv, i)), t, inv.Src+"  [callback iteration at "+st.pos(ins)+"]")
 		}
-		// forget what the closure may change
+		// forget what the closure may change (earlier invocations may have allocated objects)
+		nt := st.fresh("top", SInt)
+		st.assume(app(">=", nt, st.allocTop))
+		st.allocTop = nt
 		st.havocWrittenBy(f, cfn, cv)
 		env = st.specEnv(f, nil, false)
 		for _, inv := range invs {
